@@ -1,10 +1,10 @@
 package main
 
 import (
-	"go/types"
 	"encoding/json"
 	"flag"
 	"fmt"
+	"go/types"
 	"os"
 	"path/filepath"
 	"sort"
@@ -49,6 +49,8 @@ func main() {
 		os.Exit(cmdReplay(os.Args[2:]))
 	case "selftest":
 		os.Exit(cmdSelftest(os.Args[2:]))
+	case "sweep":
+		os.Exit(cmdSweep(os.Args[2:]))
 	default:
 		usage()
 	}
@@ -134,7 +136,7 @@ func loadAll(pkgDirs []string) (*loaded, error) {
 	prog, _ := ssautil.AllPackages(pkgs, ssa.NaiveForm|ssa.GlobalDebug|ssa.InstantiateGenerics)
 	prog.Build()
 	eng := &Engine{prog: prog, layouts: map[string][]Comp{}, heapSorts: map[string]Sort{}, heapComps: map[string]Comp{}, typeIDs: map[string]int{},
-		contracts: map[string]*FuncContract{}, specs: map[string]*SpecFunc{}, fnByKey: map[string]*ssa.Function{}, repoPrefix: modPath, pkgInvs: map[string][]Clause{}, implCache: map[string]map[string]bool{}}
+		contracts: map[string]*FuncContract{}, specs: map[string]*SpecFunc{}, fnByKey: map[string]*ssa.Function{}, repoPrefix: modPath, pkgInvs: map[string][]Clause{}, implCache: map[string]map[string]bool{}, disabledFrames: map[string]bool{}, funcIDs: map[*ssa.Function]int{}, funcByID: map[int]*ssa.Function{}}
 	for _, cf := range ld.files {
 		for _, sf := range cf.Specs {
 			if _, dup := eng.specs[sf.Name]; dup {
@@ -371,6 +373,32 @@ func cmdCheck(args []string) int {
 		timeout = 60
 	}
 	solveAll(all, timeout, 12)
+	// speculative loop frames that do not hold are dropped and the function is verified again
+	for round := 0; round < 3; round++ {
+		redo := false
+		for i, r := range reports {
+			drop := false
+			for _, o := range r.Obls {
+				if o.AutoFrame != "" && o.Result != nil && o.Result.Status != "unsat" {
+					ld.eng.disabledFrames[o.AutoFrame] = true
+					drop = true
+				}
+			}
+			if drop && r.Fn != nil {
+				nr := ld.eng.verifyFunc(r.Fn, r.Contract)
+				solveAll(nr.Obls, timeout, 12)
+				reports[i] = nr
+				redo = true
+			}
+		}
+		if !redo {
+			break
+		}
+	}
+	all = nil
+	for _, r := range reports {
+		all = append(all, r.Obls...)
+	}
 	solveMs := time.Since(t0).Milliseconds() - loadMs - genMs
 
 	known := loadKnown()
@@ -511,19 +539,19 @@ func writeEvidence(prop, tier string, seed int, reports []*FuncReport, all []*Ob
 		"seed":        seed,
 		"level":       "proof",
 		"coverage": map[string]interface{}{
-			"obligations":              len(all) - knownN, // obligations listed in known_findings.jsonl are reported separately
+			"obligations":               len(all) - knownN, // obligations listed in known_findings.jsonl are reported separately
 			"known_finding_obligations": knownN,
-			"discharged":               discharged,
-			"checker_cmd":              fmt.Sprintf("bin/gvc check %s --tier %s", prop, tier),
-			"trusted_base":             tb,
-			"samples":                  samples,
-			"functions_under_contract": fns,
-			"obligations_by_kind":      kinds,
-			"decided_by":               bySolver,
-			"solver_ms_total":          solverMs,
-			"timing_ms":                timing,
-			"engine_problems":          problems,
-			"explanation":              "weakest-precondition style VCs generated from go/ssa of /repo's working tree, one SMT query per obligation, callers checked against callee contracts",
+			"discharged":                discharged,
+			"checker_cmd":               fmt.Sprintf("bin/gvc check %s --tier %s", prop, tier),
+			"trusted_base":              tb,
+			"samples":                   samples,
+			"functions_under_contract":  fns,
+			"obligations_by_kind":       kinds,
+			"decided_by":                bySolver,
+			"solver_ms_total":           solverMs,
+			"timing_ms":                 timing,
+			"engine_problems":           problems,
+			"explanation":               "weakest-precondition style VCs generated from go/ssa of /repo's working tree, one SMT query per obligation, callers checked against callee contracts",
 		},
 		"assumptions": assumptions,
 		"wall_s":      wall,
@@ -560,6 +588,21 @@ func cmdFunc(args []string) int {
 				return 2
 			}
 			rep := ld.eng.verifyFunc(fn, fc)
+			solveAll(rep.Obls, 10, 12)
+			for round := 0; round < 3; round++ {
+				drop := false
+				for _, o := range rep.Obls {
+					if o.AutoFrame != "" && o.Result.Status != "unsat" {
+						ld.eng.disabledFrames[o.AutoFrame] = true
+						drop = true
+					}
+				}
+				if !drop {
+					break
+				}
+				rep = ld.eng.verifyFunc(fn, fc)
+				solveAll(rep.Obls, 10, 12)
+			}
 			for _, e := range rep.Errors {
 				fmt.Println("ERROR:", e)
 			}
@@ -569,7 +612,6 @@ func cmdFunc(args []string) int {
 			for _, n := range rep.Notes {
 				fmt.Println("NOTE:", n)
 			}
-			solveAll(rep.Obls, 10, 12)
 			for _, o := range rep.Obls {
 				want := "unsat"
 				if o.Cover {
@@ -619,4 +661,88 @@ func cmdFunc(args []string) int {
 
 func sanitize(s string) string {
 	return nameClean.ReplaceAllString(s, "_")
+}
+
+// cmdSweep: zero-annotation safety sweep of every function of a package that has no contract yet.
+// Prints, per function, whether all automatic safety obligations discharge (exploration aid; not a check).
+func cmdSweep(args []string) int {
+	if len(args) < 1 {
+		usage()
+	}
+	ld, err := loadAll([]string{args[0]})
+	if err != nil {
+		fmt.Fprintln(os.Stderr, err)
+		return 2
+	}
+	only := ""
+	if len(args) > 1 {
+		only = args[1]
+	}
+	rel := strings.TrimPrefix(args[0], "./")
+	var pkg *ssa.Package
+	for _, p := range ld.eng.prog.AllPackages() {
+		if p.Pkg.Path() == modPath+"/"+rel {
+			pkg = p
+		}
+	}
+	if pkg == nil {
+		fmt.Println("package not found")
+		return 2
+	}
+	var fns []*ssa.Function
+	for _, m := range pkg.Members {
+		switch x := m.(type) {
+		case *ssa.Function:
+			fns = append(fns, x)
+		case *ssa.Type:
+			for _, t := range []types.Type{x.Type(), types.NewPointer(x.Type())} {
+				ms := ld.eng.prog.MethodSets.MethodSet(t)
+				for i := 0; i < ms.Len(); i++ {
+					if f := ld.eng.prog.MethodValue(ms.At(i)); f != nil && f.Synthetic == "" && f.Pkg == pkg {
+						fns = append(fns, f)
+					}
+				}
+			}
+		}
+	}
+	sort.Slice(fns, func(i, j int) bool { return fns[i].String() < fns[j].String() })
+	seen := map[*ssa.Function]bool{}
+	for _, fn := range fns {
+		if seen[fn] || fn.Name() == "init" || len(fn.Blocks) == 0 {
+			continue
+		}
+		seen[fn] = true
+		key := fn.RelString(fn.Pkg.Pkg)
+		if only != "" && key != only {
+			continue
+		}
+		if ld.eng.contractFor(fn) != nil {
+			continue
+		}
+		fc := &FuncContract{Key: key, LoopInv: map[int][]Clause{}, LoopDec: map[int]Clause{}, Safety: map[string]bool{"all": true}, HasSafe: true}
+		rep := ld.eng.verifyFunc(fn, fc)
+		solveAll(rep.Obls, 8, 12)
+		var bad []string
+		for _, o := range rep.Obls {
+			if o.AutoFrame != "" || o.Cover {
+				continue
+			}
+			if o.Result.Status != "unsat" {
+				bad = append(bad, fmt.Sprintf("%s[%s]@%s", strings.TrimPrefix(o.Name, rep.Name), o.Result.Status, o.Pos))
+			}
+		}
+		status := "PASS"
+		if rep.Unsupported != "" {
+			status = "UNSUP " + rep.Unsupported
+		} else if len(bad) > 0 {
+			status = fmt.Sprintf("FAIL %d/%d", len(bad), len(rep.Obls))
+		}
+		fmt.Printf("%-60s %s obls=%d\n", key, status, len(rep.Obls))
+		for i, b := range bad {
+			if i < 6 {
+				fmt.Println("      ", b)
+			}
+		}
+	}
+	return 0
 }
